@@ -495,6 +495,8 @@ def run(ctx):
     ts = j2front.TemplateSet(ctx.root)
     px = pyfront.PyIndex(ctx.root)
     rule_both_sides(ctx, ts)
+    from checks import _lines
+    _lines.rule_comment_eol(ctx, ts, "R-C17-BOTH-SIDES", only=("base.j2",), floor=2)      # an assertion glued onto a `//` line is no assertion
     rule_options_view(ctx, ts, px)
     rule_include_scope(ctx, px)
     rule_value(ctx, px, ctx.root)
